@@ -3,23 +3,44 @@ From Coq Require Import List String Arith NArith Bool Lia.
 From FB Require Import Model.Overlay Proofs.OverlayInv Proofs.OverlayScan Proofs.OverlayRestart
   Proofs.OverlayReadOnly Proofs.OverlayCoh Proofs.OverlayCohView Proofs.OverlayCopyUp Proofs.OverlayCohOps
   Proofs.OverlayCohSteps Proofs.OverlayRefineTeq Proofs.OverlayRefineMerge Proofs.OverlayRefineRun Proofs.OverlayRefine
-  Proofs.OverlayRefineWh Proofs.OverlayRefineCu Proofs.OverlayRefineLink Proofs.OverlayRefineRmdir Proofs.OverlayRefineCuFile Proofs.OverlayRefineDirAttr Proofs.OverlayRefineCuRm.
+  Proofs.OverlayRefineWh Proofs.OverlayRefineCu Proofs.OverlayRefineLink Proofs.OverlayRefineRmdir Proofs.OverlayRefineCuFile Proofs.OverlayRefineDirAttr Proofs.OverlayRefineCuRm
+  Proofs.OverlayRefineFail Proofs.OverlayRefineRead Proofs.OverlayRefineFail2 Proofs.OverlayRefineRerun Proofs.OverlayRefineDirAttr2
+  Proofs.OverlayRefineRmdirLow Proofs.OverlayRefineCuWh Proofs.OverlayRefineSymlink Proofs.OverlayRefineLinkCu.
 Import ListNotations.
 
 (* no copy-up (Stage 1), whiteout cases (Stage 2), creation below a directory that is copied up first (Stage 3), link,
    rmdir of a merged directory that is empty in the view, attribute changes of upper directories,
    unlink below a directory that is copied up first *)
-Definition refinable (s : state) (o : op) : bool :=
+Definition refinable0 (s : state) (o : op) : bool :=
   direct s o || direct_wh s o || direct_cu s o || direct_link s o || direct_rmdir_merged s o || direct_dattr s o || direct_cu_rm s o.
+(* ... attribute changes of the root and of directories that are copied up first, rmdir of a lower-only directory whose entries
+   are hidden by lower whiteouts, creation over a whiteout and rmdir below a directory that is copied up first, operations on
+   symlinks that only lower layers hold and link below a directory that is copied up first; the read-only operations; the
+   failing operations (invisible path, existing target, rmdir of a non-directory / non-empty directory, non-directory parent,
+   link on a directory, unlink of a directory, rename) *)
+Definition refinable1 (s : state) (o : op) : bool :=
+  direct_dattr_more s o || direct_rmdir_low s o || direct_cu_wh s o || direct_symlink s o || direct_link_cu s o.
+Definition refinable2 (s : state) (o : op) : bool :=
+  readable s o || invisible s o || exists_target s o || rmdir_fails s o || fails_more s o.
+Definition refinable (s : state) (o : op) : bool := refinable0 s o || refinable1 s o || refinable2 s o.
 
 Theorem op_refines_fragments s o v : Coherent s -> refinable s o = true -> view (load_all s) = Some v -> refines_at s o v.
 Proof.
-  intros HC H Hv. unfold refinable in H. apply orb_prop in H. destruct H as [H|H]; [|apply op_refines_unlink_cu; assumption].
-  apply orb_prop in H. destruct H as [H|H]; [|apply op_refines_dattr; assumption].
-  apply orb_prop in H. destruct H as [H|H]; [|apply op_refines_rmdir_merged; assumption].
-  apply orb_prop in H. destruct H as [H|H]; [|apply op_refines_link; assumption].
-  apply orb_prop in H. destruct H as [H|H]; [|apply op_refines_copyup; assumption].
-  apply orb_prop in H. destruct H as [H|H]; [apply op_refines_direct; assumption|apply op_refines_whiteout; assumption].
+  intros HC H Hv. unfold refinable in H. apply orb_prop in H. destruct H as [H|H]; [apply orb_prop in H; destruct H as [H|H]|].
+  - unfold refinable0 in H. apply orb_prop in H. destruct H as [H|H]; [|apply op_refines_unlink_cu; assumption].
+    apply orb_prop in H. destruct H as [H|H]; [|apply op_refines_dattr; assumption].
+    apply orb_prop in H. destruct H as [H|H]; [|apply op_refines_rmdir_merged; assumption].
+    apply orb_prop in H. destruct H as [H|H]; [|apply op_refines_link; assumption].
+    apply orb_prop in H. destruct H as [H|H]; [|apply op_refines_copyup; assumption].
+    apply orb_prop in H. destruct H as [H|H]; [apply op_refines_direct; assumption|apply op_refines_whiteout; assumption].
+  - unfold refinable1 in H. apply orb_prop in H. destruct H as [H|H]; [|apply op_refines_link_cu; assumption].
+    apply orb_prop in H. destruct H as [H|H]; [|apply op_refines_symlink; assumption].
+    apply orb_prop in H. destruct H as [H|H]; [|apply op_refines_cu_wh; assumption].
+    apply orb_prop in H. destruct H as [H|H]; [apply op_refines_dattr_more; assumption|apply op_refines_rmdir_low; assumption].
+  - unfold refinable2 in H. apply orb_prop in H. destruct H as [H|H]; [|exact (proj1 (op_refines_fails_more s o v HC H Hv))].
+    apply orb_prop in H. destruct H as [H|H]; [|exact (proj1 (op_refines_rmdir_fails s o v HC H Hv))].
+    apply orb_prop in H. destruct H as [H|H]; [|exact (proj1 (op_refines_eexist s o v HC H Hv))].
+    apply orb_prop in H. destruct H as [H|H]; [exact (proj1 (op_refines_readable s o v HC H Hv))|exact (proj1 (op_refines_enoent s o v HC H Hv))].
 Qed.
 (* in the form of [op_refines] (the body of C10_op_refines_full), after any history over [coh_op] from any well-formed layers *)
 Theorem op_refines_fragments_history u ls nx ops o : Forall layer_ok (u :: ls) -> coh_history ops = true ->
